@@ -25,4 +25,4 @@ Deliverables, all under /tmp/seed/{pid}/ :
   - demo.py : a small self-contained program, run as `cd <checkout> && /venv/bin/python /tmp/seed/{pid}/demo.py` (it must import ptera from the current working directory's checkout — put `import sys, os; sys.path.insert(0, os.getcwd())` at the top), that exits 0 on the unchanged library and exits non-zero (an assertion failure showing the property broken) with your patch applied. Functions probed by ptera must be defined in a real file (demo.py itself is fine) because ptera reads their source with inspect.
   - meta.json : {{"property": "{pid}", "summary": "<what was changed>", "needs": "<what specific condition is needed for the breakage to manifest>", "files": [...], "ran": ["<commands you ran and their outcome>"]}}
 
-Verify all three claims yourself before finishing: (a) pytest passes with the patch, (b) demo.py fails with the patch, (c) after `git -C /tmp/wt/{pid} stash` (or checkout) demo.py passes on the unchanged code. Leave the worktree with the patch applied (uncommitted). In your final message, summarise the change and what it needs to manifest in 5 lines.""")
+Verify all three claims yourself before finishing: (a) pytest passes with the patch, (b) demo.py fails with the patch, (c) on the unchanged code demo.py passes (save your change with `git -C /tmp/wt/{pid} diff > /tmp/seed/{pid}/patch.diff`, then `git -C /tmp/wt/{pid} checkout -- .`, run, then `git -C /tmp/wt/{pid} apply /tmp/seed/{pid}/patch.diff`; do NOT use git stash: the stash is shared between worktrees). Leave the worktree with the patch applied (uncommitted). In your final message, summarise the change and what it needs to manifest in 5 lines.""")
